@@ -74,6 +74,16 @@ CLAIMED = {
         "level": "Generated perturbed droplets of all three classes, R0 over two decades, arbitrary centres, several simultaneously non-zero modes up to degree 4 in four amplitude regimes; exact claims to 1e-6..1e-12, first-order claims as |error| R0 <= C s^2 over s = 1e-5..1e-2.",
         "note": "numpy/scipy quadrature primitives trusted; directions kept 0.2 rad off the poles; 3-D volume only for <= 8 non-zero modes.",
     },
+    "C14": {
+        "technique": _T + "; differential between the online trackers and the offline analysis of the identical stored frames (direct drive and real py-pde solver runs)",
+        "level": "Generated histories of 0-8 (12) fields on every grid family with irregular times and drawn analysis settings, sources (None / index / callable), pre-filled time courses and files; solver runs of three PDEs; frame-by-frame byte comparison with EmulsionTimeCourse.from_storage and with the written file; LengthScaleTracker compared bit-wise with get_length_scale (NaN when it raises) and with its JSON file.",
+        "note": "py-pde storage/solvers trusted; solver runs on 8x8-16x16 grids with the numpy backend.",
+    },
+    "C15": {
+        "technique": "schedule exploration by harness-controlled delay injection (Hypothesis-drawn completion orders, exhaustive over 4 tasks in the thorough tier), differential against the serial run",
+        "level": "Generated fields / storages x process counts {2,3,5,auto} x forced worker completion orders; locate_droplets(refine=True), refine_droplets and EmulsionTimeCourse.from_storage must return the byte-identical, identically ordered result of the serial run; serial runs must be repeatable.",
+        "note": "Explores completion orders of whole tasks on forked process pools, not pre-emption inside a task; delays are never used as a verdict.",
+    },
     "C16": {
         "technique": _T + "; Parseval identity, wave-number oracle, metamorphic relations (scale, roll, flip, transpose, stretch)",
         "level": "Generated fully periodic grids (dims 1-3, even/odd shapes, anisotropic spacings over 4 decades) x field kinds x transformation bundles; unsmoothed and smoothed variants with requested wave numbers and add_zero.",
@@ -102,4 +112,4 @@ CLAIMED = {
 }
 
 _PENDING = "check not built yet in this revision of /verif (planned in DESIGN.md §4); no claim is made"
-NOT_APPLICABLE = {f"C{i:02d}": _PENDING for i in range(1, 21)}
+NOT_APPLICABLE = {f"C{i:02d}": _PENDING for i in range(1, 21)}  # only used for ids missing from CLAIMED (none at present)
